@@ -312,6 +312,6 @@ func TestC08(t *testing.T) {
 			}
 		}
 	}
-	c08Part.Run(s, hx.PerShard(hx.Pick(240000, 2400000)))
+	c08Part.Run(s, hx.PerShard(hx.Pick(240000, 12000000)))
 	c08Part.RunConcurrent(s, 8, hx.Pick(2500, 40000))
 }
